@@ -321,7 +321,9 @@ def run(ctx):
             if drop:
                 # keys of parents at the dropped level would be irrelevant keys (finding F4)
                 table = [t for t in table if t[0][0] != drop]
-            minm = rng.randint(1, 4)
+            # 0 = no minimum; only on trees whose root is a choice (a single top node cannot be mapped: F10, and the
+            # statement is ambiguous there: MarkerTable!MayFail)
+            minm = rng.randint(0, 4) if len(tj['nodes'][0]) > 1 else rng.randint(1, 4)
             scheme = ['structural', 'reversed', 'shared'][i % 3]
             rg = list(range(1, G + 1))
             o = observe(tj, drop, table, qg, rg, minm, scheme, wd)
@@ -342,14 +344,25 @@ def run(ctx):
                  errors_observed=sum(1 for r in recs if r['outcome'] == 'error'))
         # self-test: corrupt observed gene sets -> rejected
         st = []
-        for r in recs:
+        for r, v0 in zip(recs, vs):
+            if not v0['accepted']:
+                continue                     # the binding self-test corrupts observations the spec accepted
             if r['outcome'] == 'ok' and any(g for _, g in r['genes']):
                 r2 = json.loads(json.dumps(r))
+                tj_ = r['tree']
+                choice = {(0, 0)} if len(tj_['nodes'][0]) > 1 else set()
+                for k_, lev in enumerate(tj_['hier'][:-1]):
+                    for n_, kids_ in tj_['kids'][k_]:
+                        if len(kids_) > 1:
+                            choice.add((lev, n_))
+                hit = False
                 for e in r2['genes']:
-                    if e[1]:
+                    if e[1] and tuple(e[0]) in choice and (r['drop'] == 0 or e[0][0] != r['drop']):
                         e[1] = e[1][:-1]
+                        hit = True
                         break
-                st.append(r2)
+                if hit and r['drop'] == 0:
+                    st.append(r2)
             if len(st) >= 30:
                 break
         if st:
